@@ -15,6 +15,10 @@ OP2_SCRIPTS = [
 
 FLAT_LIMITS = ["1", "2", "inf"]
 FLAT_SCRIPTS = [
+    # one thread hands over the inner observables and completes the outer stream, the other drives the hot ones to their end:
+    # everything must arrive and the output must complete (the limit makes the second one wait for the first)
+    ("(o (hoti 0))", ["(o (coldi (n 7) c)) (o c)", "(i 0 (n 1)) (i 0 c)"]),
+    ("(o (hoti 0)) (o (hoti 1))", ["(o (coldi (n 7) c)) (o c)", "(i 0 (n 1)) (i 0 c) (i 1 (n 5)) (i 1 c)"]),
     ["(o (hoti 0)) (i 0 (n 1))", "(o (hoti 1)) (i 1 (n 5))"],
     ["(o (hoti 0)) (i 0 (n 1)) (i 0 c)", "(o (coldi (n 7) (n 8) c)) (o c)"],
     ["(o (hoti 0)) (i 0 (n 1))", "u"],
@@ -36,9 +40,12 @@ def cases(tier, rng, prefix="j", kinds=("op2", "flat", "fin"), only_unsub=False)
     n = 0
     def add(pipe, threads, klass):
         nonlocal n
+        setup = ""
+        if isinstance(threads, tuple):
+            setup, threads = threads
         nt = len(threads)
-        maxrun = (7 if tier == "quick" else 12) if nt == 2 else (5 if tier == "quick" else 8)
-        sw = (2 if tier == "quick" else 3) if nt == 2 else (2 if tier == "quick" else 3)
+        maxrun = (6 if tier == "quick" else 12) if nt == 2 else (5 if tier == "quick" else 8)
+        sw = 3 if nt == 2 else (2 if tier == "quick" else 3)
         scheds = ileave.schedules(nt, maxrun, sw)
         for _ in range(60 if tier == "quick" else 1500):
             scheds.append([rng.below(nt) for _ in range(40)])
@@ -51,9 +58,11 @@ def cases(tier, rng, prefix="j", kinds=("op2", "flat", "fin"), only_unsub=False)
             n += 1
             full = sc + ileave.tail(nt)
             cs.append(("%s%d" % (prefix, n),
-                       "(case %s%d ileave2 %s (threads %s) (sched %s))" % (prefix, n, pipe, " ".join("(%s)" % t for t in threads), " ".join(map(str, full))),
+                       "(case %s%d ileave2 %s (threads %s) (sched %s)%s)" % (prefix, n, pipe, " ".join("(%s)" % t for t in threads), " ".join(map(str, full)),
+                                                                           (" (setup %s)" % setup) if setup else ""),
                        {"kind": klass, "pipe": pipe, "threads": nt, "scripts": " | ".join(threads)}))
     def want(th):
+        th = th[1] if isinstance(th, tuple) else th
         return (not only_unsub) or any("u" in t.split() for t in th)
     if "op2" in kinds:
         for o in OP2:
